@@ -749,6 +749,22 @@ class Fn:
                 return tt, [ff]
         return t, others
 
+    def outer_switch(self, switches):
+        """the dispatch switch: the one whose block dominates every other *reachable* one."""
+        idom = self.dominators()
+        live = [x for x in switches if x[0] in idom]
+        for x in live:
+            if all(self.dominates(x[0], y[0]) for y in live):
+                return x
+        # drop elaboration can add a discriminant switch on an error-exit path that bypasses the
+        # dispatch: take the switch from which the most calls are reachable through its arms
+        best = None
+        for x in live:
+            score = len({c.bb for c in self.calls if any(self.dominates(t, c.bb) for t in x[1].values())})
+            if best is None or score > best[0]:
+                best = (score, x)
+        return best[1] if best else None
+
     def dominated_region(self, bb):
         return {b for b in self.reachable(bb) if self.dominates(bb, b)}
 
